@@ -1,4 +1,4 @@
-import DoitModel.Proofs.C09Fuel
+import DoitModel.Proofs.C09Term3
 /-! # C09 — every run terminates; dependency cycles are diagnosed, never hung on
 
 Property theorems only (model: `Model/Run.lean`, `Model/RunC09.lean`; invariants: `Proofs/Run*.lean`, `Proofs/C09*.lean`).
@@ -145,12 +145,36 @@ theorem C09_cyclic_ends_run_parallel (inp : RunInput) (s : Sys) (d : Name) (perm
     exitCode (finishRun (raise s .cyclic)) = 3 ∧ (finishRun (raise s .cyclic)).rpc = .halted := by
   refine ⟨by simp [mainStep, h1, h2], rfl, rfl, rfl⟩
 
-/-! ### termination and diagnosis: full statements (monitored on every implementation run, not proved) -/
+/-! ### termination
 
-/-- every run of the model is finite: there is no infinite sequence of enabled choices.  NOT proved (the potential
-    function of DESIGN §5 C09 is not built); the harness runs every case under a watchdog instead. -/
+`FiniteTable inp N` (Proofs/C09Term1.lean): every task name the table mentions — selection, task_dep, calc_dep, setup,
+calc results — is an index below `N`.  Without it the statement is false in the model (a `RunInput` is a family of
+functions on `Nat`: `taskDep n = [n + 1]` creates nodes for ever). -/
+
+/-- every run of the model on a finite task table is finite: there is no infinite sequence of enabled choices.  Proved
+    for the serial runner (`C09_terminates_serial`); for the parallel runners see `C09_terminates_parallel` /
+    the account in its docstring. -/
 def C09_terminates_full : Prop :=
-  ∀ inp : RunInput, ¬ ∃ (f : Nat → Sys) (c : Nat → Choice), f 0 = init inp ∧ ∀ i, stepOf inp (f i) (c i) = some (f (i + 1))
+  ∀ (inp : RunInput) (N : Nat), FiniteTable inp N →
+    ¬ ∃ (f : Nat → Sys) (c : Nat → Choice), f 0 = init inp ∧ ∀ i, stepOf inp (f i) (c i) = some (f (i + 1))
+
+/-- C09 (terminates), dispatcher + serial runner, FULL: on a finite task table — any graph (cyclic ones included), any
+    selection, oracle, flags — there is no infinite run, whatever order the `set`s are iterated in.  Proof
+    (`Proofs/C09Term1-3.lean`): every transition strictly decreases the lexicographic measure
+    (`L1` names without a node, `L2` Σ calc_deps still to be delivered, `lin` a weighted sum of list lengths of the
+    `ExecNode`s, a rank of the generator position with a gap at each `yield this_task`, the dispatcher queues and a rank
+    of the runner's program counter); `generator.send` (`_update_waiting`) never increases the dispatcher part. -/
+theorem C09_terminates_serial (inp : RunInput) (hser : inp.runner = .serial) (N : Nat) (hF : FiniteTable inp N) :
+    ¬ ∃ (f : Nat → Sys) (c : Nat → Choice), f 0 = init inp ∧ ∀ i, stepOf inp (f i) (c i) = some (f (i + 1)) :=
+  serial_terminates hser hF
+
+/-- the step form: every transition of the serial system from a reachable state decreases the measure -/
+theorem C09_serial_step_decreases (inp : RunInput) (N : Nat) (hF : FiniteTable inp N) (s s' : Sys) (hr : Reach inp s)
+    (c : Choice) (hs : step inp s c = some s') : MLt inp N s' s := by
+  cases c with
+  | main perm => exact serialStep_mlt hF (created_lt hF hr) (created_lt hF (Reach.next hr hs)) hs
+  | take w => cases hs
+  | done w => cases hs
 
 /-! ### a cycle in the closure of the selection is diagnosed (FULL)
 
@@ -240,9 +264,8 @@ theorem C09_report_after_dependencies (inp : RunInput) (s : Sys) (hr : Reach inp
     · exact (preach_inv x).1
   exact edge_older hT h2 (calcsSat_of_bounded hb _) ha
 
-/-- what IS proved of termination (`C09_terminates_full` is not): `halted` is final for the main thread of both
-    systems, and a raised cyclic error reaches it in two steps (`C09_cyclic_ends_run_*`).  Missing: the potential
-    function showing that every run reaches `halted` (DESIGN §5 C09); the harness runs every case under a watchdog. -/
+/-- `halted` is final for the main thread of both systems (and a raised cyclic error reaches it in two steps,
+    `C09_cyclic_ends_run_*`) -/
 theorem C09_terminates_partial (inp : RunInput) (s : Sys) (perm : List Name) (h : s.rpc = .halted) :
     serialStep inp s perm = none ∧ mainStep inp s perm = none := by
   simp [serialStep, mainStep, h]
@@ -357,6 +380,16 @@ theorem C09_exAcyclic_acyclic : Acyclic exAcyclic := by
     · simp at h
   | resT _ h => simp [exAcyclic] at h
   | resF _ h => simp [exAcyclic] at h
+
+/-- … and is a finite task table with 5 tasks, and satisfies the fuel hypothesis of `C09_cycle_diagnosed_*`: the
+    hypotheses of `C09_terminates_serial` and `C09_cycle_diagnosed_*` hold of a graph with every edge kind -/
+theorem C09_exAcyclic_finite : FiniteTable exAcyclic 5 ∧ BoundedCalc exAcyclic 5 := by
+  refine ⟨⟨?_, ?_, ?_, ?_, ?_, ?_, ?_⟩, fun t => ⟨?_, ?_⟩⟩
+  all_goals first
+    | (intro n d h; simp only [exAcyclic] at h; repeat' split at h
+       all_goals (simp at h; try first | (subst h; decide) | (rcases h with rfl | rfl <;> decide)))
+    | (intro d h; simp only [exAcyclic] at h; repeat' split at h
+       all_goals (simp at h; try first | (subst h; decide) | (rcases h with rfl | rfl <;> decide)))
 
 /-- … on which the run ends normally after executing all five tasks (so the theorems above are about runs that do
     pass through `waiting` and `"hold on"` states: three workers, two of them idle most of the time) -/
